@@ -22,6 +22,21 @@ theorem send_holds_sendMutex :
 theorem dialAndSend_private_connection :
     ∀ e ∈ Generated.lockEvents, e.2.1 = "Client.DialAndSendWithContext" → False := by decide
 
+/-- Fact regenerated from client.go / client_120.go: the functions every message of a DialAndSend and
+    of a SendWithSMTPClient passes through (DialAndSendWithContext, SendWithSMTPClient, sendSingleMsg)
+    never mention the shared connection `c.smtpClient`, never call a method of Client that reaches it
+    (closure `sharedConnMethods`: Close, Reset, Send, DialWithContext, ...) and never pass the receiver
+    on as a value - they work on the connection handed to them only. `Client.Send`, the one entry point
+    that reads `c.smtpClient`, does so under sendMutex (`send_holds_sendMutex`). -/
+theorem send_path_stays_on_its_connection :
+    ∀ e ∈ Generated.recvUses, e.1 ≠ "Client.Send" →
+      ∀ u ∈ e.2, u ≠ "c.smtpClient" ∧ u ≠ "<c>" ∧ u ∉ Generated.sharedConnMethods := by decide
+
+/-- ... and these are the functions in question (the inventory is not empty) -/
+theorem send_path_inventory :
+    Generated.recvUses.map (·.1) = ["Client.DialAndSendWithContext", "Client.Send", "Client.sendSingleMsg", "Client.SendWithSMTPClient"] ∧
+    "c.Reset" ∈ Generated.sharedConnMethods ∧ "c.Send" ∈ Generated.sharedConnMethods := by decide
+
 /-- Fact: smtp.Client.cmd writes the command and reads its reply inside one critical section of the
     connection mutex (Lock ... Text.Cmd ... Text.ReadResponse ... Unlock). -/
 theorem cmd_is_one_critical_section :
